@@ -50,7 +50,12 @@ def run(ctx):
     mev = W.ev(MAIN)
 
     # ------------------------------------------------------------------ (1) handler before spawn; termination feature
-    spawns = [bb for bb, t in main.calls() if callee_name(t["fn"].get("path", "")) == "spawn" and "thread" in t["fn"].get("path", "")]
+    from lib import spawn_contexts
+    sctx = spawn_contexts(ctx, W)
+    # the block of main at which each spawn (or the iterator chain / helper that performs it) sits
+    spawns = sorted({d["main_bb"] for d in sctx if d["main_bb"] is not None})
+    ctx.check("handler-installed", "spawns-located", len(spawns) >= 1 and all(d["main_bb"] is not None for d in sctx), "every thread spawn is reached from main through a single call path",
+              "anchor-missing: a thread spawn cannot be located relative to main", ctx.loc(main))
     setters = []
     for f in P.fns.values():
         for bb, t in f.calls():
@@ -111,14 +116,9 @@ def run(ctx):
               "the signal handler reaches %s" % risky[:4], ctx.loc(h))
 
     # thread entries
-    entries = []
-    for bb in spawns:
-        t = main.blocks[bb].term
-        for c in t.get("closures", []):
-            if not c.startswith("fn:"):
-                entries.append((c, bb))
-    worker = [e for e in entries if main.in_loop(e[1])]
-    reporter = [e for e in entries if not main.in_loop(e[1])]
+    entries = [(d["entry"], d["main_bb"]) for d in sctx if d["entry"]]
+    worker = [(d["entry"], d["main_bb"]) for d in sctx if d["entry"] and d["looped"]]
+    reporter = [(d["entry"], d["main_bb"]) for d in sctx if d["entry"] and not d["looped"]]
 
     # parameters bound to the flag (reporter.processing_loop(KEEP_RUNNING.deref()))
     bound = {}
@@ -329,5 +329,7 @@ def run(ctx):
     ctx.check("exit-status", "exit-0-after-joins", ok5, "after joining every thread main calls process::exit(0)", "exit paths after the spawn loop: %s" % [(main.loc(bb), fmt(a)) for bb, a in after], ctx.loc(main))
     # every spawned handle is joined
     pushes = [bb for bb, t in main.calls() if callee_name(t["fn"].get("path", "")) == "push" and any(main.dominates(s, bb) for s in spawns)]
-    ctx.check("exit-status", "all-threads-joined", len(pushes) >= len(spawns) and bool(joins) and all(main.in_loop(j) for j in joins), "every spawned thread's handle is collected and joined",
+    # handles produced by an iterator chain are collected into the vector directly
+    collected = [s_ for s_ in spawns if callee_name(main.blocks[s_].term["fn"].get("path", "")) in ("map", "collect", "extend", "for_each")]
+    ctx.check("exit-status", "all-threads-joined", len(pushes) + len(collected) >= len(spawns) and bool(joins) and all(main.in_loop(j) for j in joins), "every spawned thread's handle is collected and joined",
               "not every spawned thread is joined before exit", ctx.loc(main))
